@@ -569,6 +569,14 @@ class Hist:
                 sid = re.compile(r"^[A-Za-z_][A-Za-z0-9_]*$")
                 if not all(sid.match(i) for tbl in (ref.rxns, ref.mets, ref.genes, ref.groups) for i in tbl):
                     raise Skip("without id replacement only SBML SIds can be written")
+                # SBML has one identifier namespace per model: without the R_/M_/G_ prefixes a reaction, a species, a gene product,
+                # a group, a compartment or the model itself may not share an identifier (no writer could keep both ids)
+                every = [i for tbl in (ref.rxns, ref.mets, ref.genes, ref.groups) for i in tbl]
+                every += sorted({m["compartment"] for m in ref.mets.values()} | set(ref.comps))
+                if ref.id:
+                    every.append(ref.id)
+                if len(set(every)) != len(every):
+                    raise Skip("without id replacement identifiers must be unique across object kinds (one SBML namespace)")
         # known finding KF-03: undo entries are bound to the objects of the solver that was current when they were recorded
         if kind == "solver" and depth_now(a) > 0 and "solver_switch_in_context" in self.quarantine:
             self.stats["quarantined:solver_switch_in_context"] += 1
